@@ -271,6 +271,7 @@ func bfSingleSetup(s *rt.Sim, tier string) func() {
 			return
 		}
 		peer.keepAlive(conn.Muxer(), true)
+		watchErrs := watchConn(conn)
 		want := blocks[pick("op", len(blocks))]
 		shape := oneOf("op", "matching", "no-blocks", "empty-batch", "other-block", "several-blocks", "matching")
 		// forks and slot battles (own stream of draws): the block the server holds for that slot
@@ -358,6 +359,42 @@ func bfSingleSetup(s *rt.Sim, tier string) func() {
 		} else if shape == "matching" && !flipped {
 			rt.Violate("C23/matching-block-rejected", "%s: %v", desc, gErr)
 			return
+		}
+		// a second single-block request on the same client (own stream of draws): whatever the
+		// first batch was, the protocol is back in Idle and the next request gets its block
+		if rt.Choose("op.x", 2) == 1 && !peer.eof && len(watchErrs.errs) == 0 && shape != "no-blocks" {
+			want2 := blocks[pick("op", len(blocks))]
+			var got2 ledger.Block
+			var gErr2 error
+			ret2 := false
+			reqBytes := len(peer.stream(blockfetch.ProtocolId, false))
+			go func() {
+				got2, gErr2 = conn.BlockFetch().Client.GetBlock(want2.Point)
+				ret2 = true
+			}()
+			for i := 0; i < 600 && len(peer.stream(blockfetch.ProtocolId, false)) == reqBytes && !ret2; i++ {
+				sleep(100 * time.Millisecond)
+			}
+			if len(peer.stream(blockfetch.ProtocolId, false)) > reqBytes {
+				send(sampleBytes("blockfetch", 2, 0, 0))
+				send(wrappedBlockMsg(want2))
+				send(sampleBytes("blockfetch", 5, 0, 0))
+			}
+			for i := 0; i < 600 && !ret2; i++ {
+				sleep(time.Second)
+			}
+			rt.Hit("bfsingle.second-request")
+			if pair.A.Deadline > 0 {
+				return
+			}
+			if !ret2 {
+				rt.Violate("C23/getblock-hangs/second-request-after-"+shape, "%s; a second GetBlock(%s block) on the same client, answered with exactly that block, had not returned after 10 simulated minutes (request written: %v)", desc, want2.Era, len(peer.stream(blockfetch.ProtocolId, false)) > reqBytes)
+				return
+			}
+			if gErr2 != nil || got2 == nil || !bytes.Equal(got2.Hash().Bytes(), want2.Hash) {
+				rt.Violate("C23/second-request-failed/after-"+shape, "%s; a second GetBlock(%s block) answered with exactly that block returned %v", desc, want2.Era, gErr2)
+				return
+			}
 		}
 		conn.Close()
 		peer.close()
